@@ -19,7 +19,7 @@ type vTemplate struct {
 
 func vKindSet(tier int) []string {
 	if tier == 0 {
-		return []string{"-", "S", "N", "BOOL", "NULL", "L"}
+		return []string{"-", "S", "N", "BOOL", "NULL", "L", "B"}
 	}
 	return vspec.Kinds
 }
@@ -144,6 +144,7 @@ func VerifC06Func() {
 	texts := []string{
 		"attribute_exists(a)", "attribute_not_exists(a)", "attribute_type(a, :t)", "begins_with(a, :v)", "contains(a, :v)",
 		"size(a) = :n", "size(a) > :n", "a BETWEEN :v AND :w", "a IN (:v, :w)", "a IN (:v)", "NOT attribute_exists(a)", "NOT contains(a, :v)",
+		"NOT a BETWEEN :v AND :w", "NOT a IN (:v, :w)", "a BETWEEN :v AND :v", "NOT begins_with(a, :v)", "attribute_exists(a) AND a BETWEEN :v AND :w",
 	}
 	expr := texts[nd.Choice("text", len(texts))]
 	item := map[string]vspec.Val{}
